@@ -31,18 +31,24 @@ Proof.
   assert (a = 0) by nra. assert (b = 0) by nra. assert (c = 0) by nra. lra.
 Qed.
 
-(* first rejection: the three vertices of T1 strictly on one side of the plane of T2 *)
-Lemma plane_rejection_1 : forall p1 q1 r1 p2 q2 r2 dp1 dq1 dr1,
-  plane_dists Rops p1 q1 r1 p2 q2 r2 = (dp1, dq1, dr1) -> 0 < dp1 * dq1 -> 0 < dp1 * dr1 ->
-  tri_tri_overlap_3d Rops p1 q1 r1 p2 q2 r2 = false /\ disjoint_tri p1 q1 r1 p2 q2 r2.
+
+Lemma snap_cases d v n : snap Rops d v n = 0 \/ snap Rops d v n = d.
+Proof. unfold snap. destruct (le Rops _ _); auto. Qed.
+Lemma prod_pos_snap a b v n v' n' : 0 < snap Rops a v n * snap Rops b v' n' -> snap Rops a v n = a /\ snap Rops b v' n' = b.
 Proof.
-  intros p1 q1 r1 p2 q2 r2 dp1 dq1 dr1 Hd H1 H2. split.
-  - unfold tri_tri_overlap_3d. rewrite Hd. unfold gt. rops.
-    rewrite (proj2 (Rltb_true 0 (dp1 * dq1)) H1), (proj2 (Rltb_true 0 (dp1 * dr1)) H2). reflexivity.
-  - intros a b c a' b' c' W W' E.
+  intro H. destruct (snap_cases a v n) as [E | E], (snap_cases b v' n') as [E' | E']; rewrite ?E, ?E' in *; try lra; auto.
+Qed.
+
+(* first rejection: the three vertices of T1 strictly on one side of the plane of T2 *)
+Lemma plane_rejection_raw_1 : forall p1 q1 r1 p2 q2 r2 dp1 dq1 dr1,
+  plane_dists_raw Rops p1 q1 r1 p2 q2 r2 = (dp1, dq1, dr1) -> 0 < dp1 * dq1 -> 0 < dp1 * dr1 ->
+  disjoint_tri p1 q1 r1 p2 q2 r2.
+Proof.
+  intros p1 q1 r1 p2 q2 r2 dp1 dq1 dr1 Hd H1 H2.
+  intros a b c a' b' c' W W' E.
     destruct p1 as [[p1x p1y] p1z], q1 as [[q1x q1y] q1z], r1 as [[r1x r1y] r1z],
              p2 as [[p2x p2y] p2z], q2 as [[q2x q2y] q2z], r2 as [[r2x r2y] r2z].
-    unfold plane_dists in Hd. cbv [vdot vsub vcross vx vy vz mkv fst snd] in Hd. rops.
+    unfold plane_dists_raw in Hd. cbv [vdot vsub vcross vx vy vz mkv fst snd] in Hd. rops.
     inversion Hd as [[D1 D2 D3]]. clear Hd.
     unfold comb in E. cbv [vx vy vz fst snd] in E. inversion E as [[Ex Ey Ez]]. clear E.
     destruct W' as (_ & _ & _ & S'). destruct (W) as (_ & _ & _ & S).
@@ -55,27 +61,39 @@ Proof.
     + rewrite Ex, Ey, Ez. replace c' with (1 - a' - b') by lra. subst nx ny nz. ring.
 Qed.
 
-(* second rejection: the three vertices of T2 strictly on one side of the plane of T1 *)
-Definition plane_dists2 (p1 q1 r1 p2 q2 r2 : rvec) : R * R * R :=
-  let n1 := vcross Rops (vsub Rops q1 p1) (vsub Rops r1 p1) in
-  (vdot Rops (vsub Rops p2 r1) n1, vdot Rops (vsub Rops q2 r1) n1, vdot Rops (vsub Rops r2 r1) n1).
-
-Lemma plane_rejection_2 : forall p1 q1 r1 p2 q2 r2 dp2 dq2 dr2,
-  plane_dists2 p1 q1 r1 p2 q2 r2 = (dp2, dq2, dr2) -> 0 < dp2 * dq2 -> 0 < dp2 * dr2 ->
+Lemma plane_rejection_1 : forall p1 q1 r1 p2 q2 r2 dp1 dq1 dr1,
+  plane_dists Rops p1 q1 r1 p2 q2 r2 = (dp1, dq1, dr1) -> 0 < dp1 * dq1 -> 0 < dp1 * dr1 ->
   tri_tri_overlap_3d Rops p1 q1 r1 p2 q2 r2 = false /\ disjoint_tri p1 q1 r1 p2 q2 r2.
 Proof.
-  intros p1 q1 r1 p2 q2 r2 dp2 dq2 dr2 Hd H1 H2. split.
-  - unfold tri_tri_overlap_3d. destruct (plane_dists Rops p1 q1 r1 p2 q2 r2) as [[dp1 dq1] dr1].
-    destruct (gt Rops (fmul Rops dp1 dq1) (f0 Rops) && gt Rops (fmul Rops dp1 dr1) (f0 Rops)); [reflexivity|].
-    unfold plane_dists2 in Hd. cbv zeta in Hd.
+  intros p1 q1 r1 p2 q2 r2 dp1 dq1 dr1 Hd H1 H2. split.
+  - unfold tri_tri_overlap_3d. rewrite Hd. unfold gt. rops.
+    rewrite (proj2 (Rltb_true 0 (dp1 * dq1)) H1), (proj2 (Rltb_true 0 (dp1 * dr1)) H2). reflexivity.
+  - unfold plane_dists, sdist in Hd. cbv zeta in Hd.
     pose proof (f_equal (fun t => fst (fst t)) Hd) as D1. pose proof (f_equal (fun t => snd (fst t)) Hd) as D2.
     pose proof (f_equal (fun t => snd t) Hd) as D3. cbv beta in D1, D2, D3. cbn [fst snd] in D1, D2, D3.
-    cbv zeta. rewrite D1, D2, D3. unfold gt. rops.
-    rewrite (proj2 (Rltb_true 0 (dp2 * dq2)) H1), (proj2 (Rltb_true 0 (dp2 * dr2)) H2). reflexivity.
-  - intros a b c a' b' c' W W' E.
+    rewrite <- D1, <- D2 in H1. rewrite <- D1, <- D3 in H2.
+    destruct (prod_pos_snap _ _ _ _ _ _ H1) as [E1 E2]. destruct (prod_pos_snap _ _ _ _ _ _ H2) as [_ E3].
+    rewrite E1, E2 in H1. rewrite E1, E3 in H2.
+    eapply plane_rejection_raw_1; [reflexivity | exact H1 | exact H2].
+Qed.
+
+(* second rejection: the three vertices of T2 strictly on one side of the plane of T1 *)
+Definition plane_dists2_raw (p1 q1 r1 p2 q2 r2 : rvec) : R * R * R :=
+  let n1 := vcross Rops (vsub Rops q1 p1) (vsub Rops r1 p1) in
+  (vdot Rops (vsub Rops p2 r1) n1, vdot Rops (vsub Rops q2 r1) n1, vdot Rops (vsub Rops r2 r1) n1).
+Definition plane_dists2 (p1 q1 r1 p2 q2 r2 : rvec) : R * R * R :=
+  let n1 := vcross Rops (vsub Rops q1 p1) (vsub Rops r1 p1) in
+  (sdist Rops p2 r1 n1, sdist Rops q2 r1 n1, sdist Rops r2 r1 n1).
+
+Lemma plane_rejection_raw_2 : forall p1 q1 r1 p2 q2 r2 dp2 dq2 dr2,
+  plane_dists2_raw p1 q1 r1 p2 q2 r2 = (dp2, dq2, dr2) -> 0 < dp2 * dq2 -> 0 < dp2 * dr2 ->
+  disjoint_tri p1 q1 r1 p2 q2 r2.
+Proof.
+  intros p1 q1 r1 p2 q2 r2 dp2 dq2 dr2 Hd H1 H2.
+  intros a b c a' b' c' W W' E.
     destruct p1 as [[p1x p1y] p1z], q1 as [[q1x q1y] q1z], r1 as [[r1x r1y] r1z],
              p2 as [[p2x p2y] p2z], q2 as [[q2x q2y] q2z], r2 as [[r2x r2y] r2z].
-    unfold plane_dists2 in Hd. cbv [vdot vsub vcross vx vy vz mkv fst snd] in Hd. rops.
+    unfold plane_dists2_raw in Hd. cbv [vdot vsub vcross vx vy vz mkv fst snd] in Hd. rops.
     inversion Hd as [[D1 D2 D3]]. clear Hd.
     unfold comb in E. cbv [vx vy vz fst snd] in E. inversion E as [[Ex Ey Ez]]. clear E.
     destruct W as (_ & _ & _ & S). destruct (W') as (_ & _ & _ & S').
@@ -86,4 +104,24 @@ Proof.
     transitivity (((a' * p2x + b' * q2x + c' * r2x) - r1x) * nx + ((a' * p2y + b' * q2y + c' * r2y) - r1y) * ny + ((a' * p2z + b' * q2z + c' * r2z) - r1z) * nz).
     + subst dp2 dq2 dr2. replace c' with (1 - a' - b') by lra. ring.
     + rewrite <- Ex, <- Ey, <- Ez. replace c with (1 - a - b) by lra. subst nx ny nz. ring.
+Qed.
+
+Lemma plane_rejection_2 : forall p1 q1 r1 p2 q2 r2 dp2 dq2 dr2,
+  plane_dists2 p1 q1 r1 p2 q2 r2 = (dp2, dq2, dr2) -> 0 < dp2 * dq2 -> 0 < dp2 * dr2 ->
+  tri_tri_overlap_3d Rops p1 q1 r1 p2 q2 r2 = false /\ disjoint_tri p1 q1 r1 p2 q2 r2.
+Proof.
+  intros p1 q1 r1 p2 q2 r2 dp2 dq2 dr2 Hd H1 H2.
+  unfold plane_dists2 in Hd. cbv zeta in Hd.
+  pose proof (f_equal (fun t => fst (fst t)) Hd) as D1. pose proof (f_equal (fun t => snd (fst t)) Hd) as D2.
+  pose proof (f_equal (fun t => snd t) Hd) as D3. cbv beta in D1, D2, D3. cbn [fst snd] in D1, D2, D3.
+  split.
+  - unfold tri_tri_overlap_3d. destruct (plane_dists Rops p1 q1 r1 p2 q2 r2) as [[dp1 dq1] dr1].
+    destruct (gt Rops (fmul Rops dp1 dq1) (f0 Rops) && gt Rops (fmul Rops dp1 dr1) (f0 Rops)); [reflexivity|].
+    cbv zeta. rewrite D1, D2, D3. unfold gt. rops.
+    rewrite (proj2 (Rltb_true 0 (dp2 * dq2)) H1), (proj2 (Rltb_true 0 (dp2 * dr2)) H2). reflexivity.
+  - unfold sdist in D1, D2, D3. cbv zeta in D1, D2, D3.
+    rewrite <- D1, <- D2 in H1. rewrite <- D1, <- D3 in H2.
+    destruct (prod_pos_snap _ _ _ _ _ _ H1) as [E1 E2]. destruct (prod_pos_snap _ _ _ _ _ _ H2) as [_ E3].
+    rewrite E1, E2 in H1. rewrite E1, E3 in H2.
+    eapply plane_rejection_raw_2; [reflexivity | exact H1 | exact H2].
 Qed.
